@@ -107,16 +107,35 @@ func hx(b []byte) string {
 	return fmt.Sprintf("%s..(%d bytes, fnv=%016x)", hex.EncodeToString(b[:32]), len(b), evid.NewH().B(b).Sum())
 }
 
-// rapid's integer generators favour small values (a geometric distribution over bit lengths), which
-// is useful for shrinking but would starve the high tree/leaf indices, the high address bits and the
-// large base-2^b digits this property is about, and would distort the intended parameter-set mix.
-// Every choice below is still one rapid draw (replayable, shrinkable towards 0), passed through the
-// splitmix64 finaliser so that the value used is uniform.
-func uniform(rt *rapid.T, label string) uint64 {
-	z := rapid.Uint64().Draw(rt, label) + 0x9e3779b97f4a7c15
+// rapid's integer generators favour small values (a geometric distribution over bit lengths with
+// atoms at 0, 1, 2...), which is useful for shrinking but would starve the high tree/leaf indices,
+// the high address bits and the large base-2^b digits this property is about, and would distort
+// the intended parameter-set mix. Every choice below is still a rapid draw (replayable, shrinkable
+// towards 0); it is combined with a per-case salt (eight drawn bytes) and a draw counter and passed
+// through the splitmix64 finaliser, so that the value used is uniform.
+var (
+	caseSalt uint64
+	caseCtr  uint64
+)
+
+func mix64(z uint64) uint64 {
 	z = (z ^ (z >> 30)) * 0xbf58476d1ce4e5b9
 	z = (z ^ (z >> 27)) * 0x94d049bb133111eb
 	return z ^ (z >> 31)
+}
+
+// begin starts a generated case: seeds the process-wide entropy source and draws the salt.
+func begin(rt *rapid.T) {
+	detrand.Seed(rapid.Uint64().Draw(rt, "entropy"))
+	caseSalt, caseCtr = 0, 0
+	for _, c := range rapid.SliceOfN(rapid.Byte(), 8, 8).Draw(rt, "salt") {
+		caseSalt = caseSalt<<8 | uint64(c)
+	}
+}
+
+func uniform(rt *rapid.T, label string) uint64 {
+	caseCtr++
+	return mix64(rapid.Uint64().Draw(rt, label) + mix64(caseSalt+caseCtr*0x9e3779b97f4a7c15))
 }
 
 // pick draws uniformly from [0, n).
@@ -324,7 +343,7 @@ func TestParameters(t *testing.T) {
 
 func TestAddress(t *testing.T) {
 	rapid.Check(t, func(rt *rapid.T) {
-		detrand.Seed(rapid.Uint64().Draw(rt, "entropy"))
+		begin(rt)
 		var start [32]byte
 		fromRaw := (pick(rt, "fromraw", 2) == 0)
 		a := addr{t: slhdsa.VerifNewAddress(), r: &slhref.ADRS{}}
@@ -396,7 +415,7 @@ func eqU32(a, b []uint32) bool {
 
 func TestSupport(t *testing.T) {
 	rapid.Check(t, func(rt *rapid.T) {
-		detrand.Seed(rapid.Uint64().Draw(rt, "entropy"))
+		begin(rt)
 		kind := sample(rt, "kind", []string{"base2b-fors", "base2b-wots", "base2b-csum", "base2b-free", "base2b-free", "toInt", "toByte"})
 		h := evid.NewH().S(kind)
 		class := kind
@@ -480,7 +499,7 @@ func bClass(b int) string {
 
 func TestHashes(t *testing.T) {
 	rapid.Check(t, func(rt *rapid.T) {
-		detrand.Seed(rapid.Uint64().Draw(rt, "entropy"))
+		begin(rt)
 		p := drawAnySet(rt)
 		n := p.n()
 		kind := sample(rt, "kind", []string{"H_msg", "PRF", "PRF_msg", "F", "H", "T_l"})
@@ -582,7 +601,7 @@ func digestClass(m []byte) string {
 
 func TestWOTS(t *testing.T) {
 	rapid.Check(t, func(rt *rapid.T) {
-		detrand.Seed(rapid.Uint64().Draw(rt, "entropy"))
+		begin(rt)
 		p := drawAnySet(rt)
 		n := p.n()
 		kind := sample(rt, "kind", []string{"chain", "chain", "checksum", "pkGen", "sign", "pkFromSig-genuine", "pkFromSig-random", "pkFromSig-random"})
@@ -664,7 +683,7 @@ func layerTreeAddr(rt *rapid.T, p pset) addr {
 
 func TestXMSS(t *testing.T) {
 	rapid.Check(t, func(rt *rapid.T) {
-		detrand.Seed(rapid.Uint64().Draw(rt, "entropy"))
+		begin(rt)
 		kind := weighted(rt, "kind", "node", 2, "sign", 1, "pkFromSig-genuine", 1, "pkFromSig-random", 8)
 		var p pset
 		switch kind {
@@ -741,7 +760,7 @@ func idxClass(idx, n uint32) string {
 
 func TestFORS(t *testing.T) {
 	rapid.Check(t, func(rt *rapid.T) {
-		detrand.Seed(rapid.Uint64().Draw(rt, "entropy"))
+		begin(rt)
 		kind := weighted(rt, "kind", "skGen", 1, "node", 2, "sign", 1, "pkFromSig-genuine", 1, "pkFromSig-random", 11)
 		var p pset
 		switch kind {
@@ -855,7 +874,7 @@ func flipBit(b []byte, bit int) []byte {
 
 func TestHypertree(t *testing.T) {
 	rapid.Check(t, func(rt *rapid.T) {
-		detrand.Seed(rapid.Uint64().Draw(rt, "entropy"))
+		begin(rt)
 		kind := weighted(rt, "kind", "verify-random", 22, "verify-genuine", 1, "sign", 1)
 		var p pset
 		if kind == "verify-random" {
